@@ -11,6 +11,7 @@ mod c04;
 mod c05;
 mod c06;
 mod c07;
+mod c08;
 mod c19;
 mod prog;
 
@@ -111,6 +112,7 @@ fn main() {
         "c05" => c05::run(&ctx),
         "c06" => c06::run(&ctx),
         "c07" => c07::run(&ctx),
+        "c08" => c08::run(&ctx),
         "c19" => c19::run(&ctx),
         "c19dump" => c19::dump(&ctx),
         _ => {
@@ -128,6 +130,7 @@ fn roles(args: &[String]) -> i32 {
         Some("c03-holder") => c03::role_holder(&args[1..]),
         Some("c04-relay") => c04::role_relay(&args[1..]),
         Some("c05-reader") => c05::role_reader(&args[1..]),
+        Some("c08-client") => c08::role_client(&args[1..]),
         Some("lsfd") => {
             // unrelated child: print inherited descriptors
             for (fd, t) in util::fd_table() {
